@@ -80,6 +80,9 @@ class Graph:
         for leaf in self.spec["leaves"]:
             x = torch.tensor(leaf["vals"], dtype=self.dtype).reshape(tuple(leaf["shape"]))
             x = x.clone()
+            if leaf.get("layout") == "t" and x.ndim >= 2:
+                # same logical values, non-contiguous memory (like the weight of a transposed layer)
+                x = x.transpose(0, -1).contiguous().transpose(0, -1)
             x.requires_grad_(bool(leaf["rg"]))
             self.t[leaf["name"]] = x
             self.leaf_names.append(leaf["name"])
